@@ -52,7 +52,8 @@ pub fn replay_one(b: &Value, rng: &mut StdRng) -> Option<String> {
     for i in 0..m {
         bb[i] = match bcls[i] { "fin" => s0[i] + (0..n).map(|j| a[i][j] * x0[j]).sum::<f64>(), // "at or above": half of the instances sit exactly at the bound
             "big" => if rng.gen::<bool>() { 1e15 } else { 1e10 }, "neg" => if rng.gen::<bool>() { -1e30 } else { -1e20 },
-            _ => if rng.gen::<bool>() { 1e30 } else { 1e20 } };
+            // (at or above the bound: exactly at it, far above it, the largest finite number, IEEE infinity)
+            _ => [1e30, 1e20, 1e20, f64::MAX, f64::INFINITY][rng.gen_range(0..5)] };
         if bcls[i] != "fin" { z0[i] = 0.0; }
     }
     let mut q = vec![0.0; n];
